@@ -1134,6 +1134,16 @@ def check_C04(ctx, thms=None):
             text = ' '.join(ts)
             cases.append((b'm', {b'm': text.encode('latin1')}, {'text': {'m': text}}))
             verdicts.append((v, why))
+    # empty statement lists (the grammar has no empty production for a statement sequence): empty bodies, a label with nothing
+    # behind it, no main part, nothing at all
+    for text in ('LOOP x DO END', 'WHILE x != 0 DO END', 'x := 1 ; LOOP x DO END ; y := 2', 'PROGRAM f IN a DO END x := 1', 'PROGRAM f IN a DO x0 := a END',
+                 'x := 1 ; l :', 'x := 1 ; GOTO l ; l :', 'LOOP x DO x := 1 ; l : END', 'PROGRAM f IN a DO l : END x := 1', 'LOOP x DO LOOP y DO END END',
+                 'x := 1 ; LOOP x DO y := 1 END'):
+        ts = [('!= 0' if t == '!=' else t) for t in text.split(' ')]
+        ts = [t for i, t in enumerate(ts) if not (t == '0' and i > 0 and ts[i - 1] == '!= 0')]
+        v, why, info = strict.verdict(ts)
+        cases.append((b'm', {b'm': text.encode()}, {'text': {'m': text}}))
+        verdicts.append((v, why))
     # jumps to labels of ANOTHER body: from the main body into each program (the last one in particular), from a program into
     # the main body or into another program; label names that exist in one body only
     for _ in range(ctx.n(120, 1200)):
